@@ -3,6 +3,7 @@
 import glob
 import json
 import os
+import re
 
 HERE = os.path.dirname(os.path.dirname(os.path.abspath(__file__)))
 rows = []
@@ -12,8 +13,13 @@ for f in sorted(glob.glob(os.path.join(HERE, "seeded", "*", "meta.json"))):
     mis = [c for c, r in m["checks_run"].items() if r["verdict"] != "DETECTED"]
     needs = (m.get("needs") or "").replace("\n", " ").replace("|", "/")
     summ = (m.get("summary") or "").replace("\n", " ").replace("|", "/")
-    hist = m.get("history", "")
-    rows.append(f"| `{os.path.basename(os.path.dirname(f))}` | {summ[:170]}{'…' if len(summ) > 170 else ''} | {needs[:150]}{'…' if len(needs) > 150 else ''} | {', '.join(det) or '–'} | {', '.join(mis) or '–'} | {'yes' if hist else ''} |")
+    hist = m.get("history", "") or ""
+    strengthened = bool(hist)
+    mm = re.match(r"round \d+\.( First run[^.]*: ([^.]*)\.)?(.*)$", hist, re.S)
+    if mm:
+        # later rounds record the first-run verdicts; "strengthened" = something had to change afterwards
+        strengthened = bool(mm.group(3).strip())
+    rows.append(f"| `{os.path.basename(os.path.dirname(f))}` | {summ[:170]}{'…' if len(summ) > 170 else ''} | {needs[:150]}{'…' if len(needs) > 150 else ''} | {', '.join(det) or '–'} | {', '.join(mis) or '–'} | {'yes' if strengthened else ''} |")
 print("| seeded change | what was changed | what it needs | caught by | also run, silent | strengthened for it |")
 print("|---|---|---|---|---|---|")
 print("\n".join(rows))
